@@ -246,6 +246,19 @@ unsigned int irc_pton(irc_inaddr *addr, unsigned int *bits, const char *input, i
                 *bits = 128;
             goto finish;
         }
+        /* All eight groups are in (the text ends in a "::" that stands
+         * for a single group); only a netmask may follow.
+         */
+        if (bits) {
+            *bits = 128;
+            if (input[pos] == '/' && isdigit(input[pos + 1])) {
+                for (part = 0; isdigit(input[++pos]); )
+                    part = part * 10 + input[pos] - '0';
+                if (part > 128)
+                    return 0;
+                *bits = part;
+            }
+        }
     finish:
         /* Shift stuff after "::" up and fill middle with zeros. */
         if (cpos < 8) {
